@@ -107,6 +107,11 @@ def _scores_model(case, obs):
     for j, f in enumerate(case["files"]):
         raw = []
         for m in range(k):
+            if obs.get("seen") and obs["seen"][m]:
+                # recorded decision values of a black-box learner (oracle): value of model m on row r
+                seen = obs["seen"][m]
+                raw.append([int(seen.get(_gid(j, r), 0)) for r in range(len(f["targets"]))])
+                continue
             col = obs["cols"][m]
             name = "rid" if col == 0 else "feat%d" % (col - 1)
             raw.append([int(v) for v in f["data"][name]])
